@@ -39,6 +39,7 @@ def systems(draw, max_looms=2, max_procs=2, max_threads=3, max_cpus=3, models=No
     # restarts the TIDs in every process and the PIDs in every loom (the same numbers then
     # name different threads); the first TID varies so that TIDs of different decimal
     # width (9/10, 99/100, 99999/100000) meet in one process.
+    prefix_names = draw(st.integers(0, 3)) == 0
     restart = draw(st.integers(0, 2)) == 0
     tid0 = draw(st.sampled_from([100, 100, 7, 97, 998, 99997]))
     tid = tid0
@@ -49,6 +50,9 @@ def systems(draw, max_looms=2, max_procs=2, max_threads=3, max_cpus=3, models=No
     for li in range(nlooms):
         host = "node%d" % li
         lname = "%s.%d" % (host, draw(st.integers(0, 3)))
+        if prefix_names:
+            # looms of one host whose names are prefixes of each other (host.1, host.10, host.100)
+            lname = "node.1" + "0" * [1, 0, 2][li % 3]
         ncpus = draw(st.integers(1, max_cpus))
         stride = draw(st.sampled_from([1, 1, 2, 5]))
         base = draw(st.sampled_from([0, 0, 3]))
@@ -78,11 +82,24 @@ def systems(draw, max_looms=2, max_procs=2, max_threads=3, max_cpus=3, models=No
                 streams.append(s)
             rank += 1
     if use_rank:
-        for s in streams:
-            s["rank"] = [s.pop("_rank"), rank]
+        # libovni records the rank in the metadata of the thread that set it: sometimes every
+        # thread of a process carries it, sometimes only one of them (not necessarily the first)
+        sparse = draw(st.booleans())
+        byproc = {}
+        for i, s in enumerate(streams):
+            byproc.setdefault((s["loom"], s["pid"]), []).append(i)
+        keep = set()
+        for k_, idxs in sorted(byproc.items()):
+            keep.add(idxs[draw(st.integers(0, len(idxs) - 1))] if sparse else -1)
+        for i, s in enumerate(streams):
+            r = s.pop("_rank")
+            if not sparse or i in keep:
+                s["rank"] = [r, rank]
     if marks:
         defs = {}
-        for mt in range(marks):
+        # type numbers from the whole documented range 0..99, in no particular order
+        numbers = draw(st.lists(st.sampled_from([0, 1, 2, 7, 50, 98, 99]), min_size=marks, max_size=marks, unique=True))
+        for mt in numbers:
             kind = draw(st.sampled_from(["single", "stack"]))
             d = {"title": "mark type %d" % mt, "chan_type": kind}
             if draw(st.booleans()):
@@ -116,6 +133,8 @@ class Walk:
         return self.model.threads
 
     def _next_clock(self, sidx, allow_same):
+        if self.last_stream is None:
+            return self.clock          # the very first event of the trace carries t0 itself
         d = self.draw(st.integers(0 if (allow_same and self.last_stream == sidx) else 1, 12))
         if d == 0:
             self.same_clock += 1
@@ -552,7 +571,7 @@ def history(draw, prof):
                       min_threads=prof.min_threads, breakdown=prof.breakdown))
     models = tr["_models"]
     lint = prof.lint if isinstance(prof.lint, bool) else draw(st.booleans())
-    w = Walk(draw, tr, lint=lint)
+    w = Walk(draw, tr, lint=lint, t0=draw(st.sampled_from([1000, 1000, 1000, 0, 1, 2 ** 40, 2 ** 53 + 5])))
     w.no_bare_pause = getattr(prof, "no_bare_pause", False)
     ths = w.threads()
     n = draw(st.integers(*prof.steps))
